@@ -410,8 +410,10 @@ func (c *compiler) evalAccessIndex(left, index interface{}, node *ast.IndexExpre
 
 func (c *compiler) evalHashLiteral(node *ast.HashLiteral) (interface{}, error) {
 	m := map[string]interface{}{}
-	for ke, ve := range node.Pairs {
-		v, err := c.evalExpression(ve)
+	// node.Order is the source order; ranging over the Pairs map would
+	// evaluate the values, and resolve duplicate keys, in random order
+	for _, ke := range node.Order {
+		v, err := c.evalExpression(node.Pairs[ke])
 		if err != nil {
 			return nil, err
 		}
